@@ -349,6 +349,13 @@ Definition plain_value (o : operand) : option Z :=
   | _ => None
   end.
 
+(* ... where an inline number is expected a redundant hash is tolerated ("emt #3") *)
+Definition num_value (o : operand) : option Z :=
+  match o with
+  | OImm v => Some v
+  | _ => plain_value o
+  end.
+
 Definition sem_operand (c : okind) (o : operand) (addr k : Z) : option soperand :=
   match c with
   | CReg => match o with OReg r => omap SReg (sem_reg r) | _ => None end
@@ -374,10 +381,7 @@ Definition sem_operand (c : okind) (o : operand) (addr k : Z) : option soperand 
       end
   | CNum b neg_ok =>
       let num v := if ((if neg_ok then - 2 ^ b <? v else 0 <=? v)) && (v <? 2 ^ b) then Some (SNum (v mod 2 ^ b)) else None in
-      match o with
-      | OImm v => num v      (* "emt #3": accepted, the hash is redundant *)
-      | _ => match plain_value o with Some v => num v | None => None end
-      end
+      match num_value o with Some v => num v | None => None end
   end.
 
 Fixpoint sem_operands (cs : list okind) (os : list operand) (addr k : Z) : option (list soperand) :=
